@@ -18,19 +18,23 @@
 EXTENDS Integers, Sequences
 
 Modes  == {"none", "export", "only"}      \* no export / export, then solve / export only
-Wheres == {"options", "solve", "report"}  \* where the signals of the scenario arrive
+Wheres == {"options", "solve", "report", "teardown"}  \* where the signals of the scenario arrive (teardown: while the
+                                                       \* backend is being destroyed, after the run)
 Scenarios ==
   {s \in [mode : Modes, nfiles : 1..2, where : Wheres, sig : {"INT", "TERM"}, nsig : 0..3] :
      /\ (s.mode = "none" => s.nfiles = 1)
-     /\ (s.mode = "only" => s.where = "options")
+     /\ (s.mode = "only" => s.where \in {"options", "teardown"})
+     /\ (s.where = "teardown" => s.nsig = 1)
      /\ (s.nsig = 0 => s.where = "solve" /\ s.sig = "INT")}
 
-St0 == [pc |-> "options", reg |-> FALSE, exported |-> 0, delivered |-> 0, cbs |-> 0, stop |-> FALSE, exit |-> -1]
+St0 == [pc |-> "options", reg |-> FALSE, exported |-> 0, delivered |-> 0, cbs |-> 0, late |-> 0, stop |-> FALSE, exit |-> -1]
 
-Acts == {"FinishOptions", "Register", "Export", "BeginSolve", "Deliver", "Poll", "BeginReport", "End"}
+Acts == {"FinishOptions", "Register", "Export", "BeginSolve", "Deliver", "Poll", "BeginReport", "Teardown", "End"}
 
 \* Design = "code": the order of RunFromNLFile as it is.  "export_skips_register": a run with an export file goes to
-\* Solve without registering (design self-test: the invariants must reject it).
+\* Solve without registering; "backend_destroyed_first": the driver object destroys the backend before the signal
+\* handler object, so the callback is still registered while the backend goes (design self-tests: the invariants
+\* must reject both).
 AllDelivered(s, st, w) == s.where = w => st.delivered = s.nsig \/ st.exit # -1
 
 Enabled(design, s, st, a) ==
@@ -45,29 +49,36 @@ Enabled(design, s, st, a) ==
                               /\ \/ s.where = "options" /\ st.pc = "setup"
                                  \/ s.where = "solve" /\ st.pc = "solve"
                                  \/ s.where = "report" /\ st.pc = "report"
+                                 \/ s.where = "teardown" /\ st.pc = "teardown"
     [] a = "Poll"          -> st.pc = "solve"
     [] a = "BeginReport"   -> st.pc = "solve" /\ AllDelivered(s, st, "solve")
-    [] a = "End"           -> \/ st.pc = "report" /\ AllDelivered(s, st, "report")
+    \* the driver object goes: the handler object first (it withdraws the callback), then the backend
+    [] a = "Teardown"      -> \/ st.pc = "report" /\ AllDelivered(s, st, "report")
                               \/ st.pc = "setup" /\ s.mode = "only" /\ st.exported = s.nfiles /\ AllDelivered(s, st, "options")
+    [] a = "End"           -> st.pc = "teardown" /\ AllDelivered(s, st, "teardown")
     [] OTHER -> FALSE
 
-Apply(s, st, a) ==
+ApplyD(design, s, st, a) ==
   CASE a = "FinishOptions" -> [st EXCEPT !.pc = "setup"]
     [] a = "Register"      -> [st EXCEPT !.reg = TRUE]
     [] a = "Export"        -> [st EXCEPT !.exported = @ + 1]
     [] a = "BeginSolve"    -> [st EXCEPT !.pc = "solve"]
     [] a = "Deliver"       -> IF st.delivered = 2                                  \* the third one ends the process
                                 THEN [st EXCEPT !.delivered = 3, !.pc = "exited", !.exit = 1]
-                                ELSE [st EXCEPT !.delivered = @ + 1, !.stop = TRUE, !.cbs = @ + (IF st.reg THEN 1 ELSE 0)]
+                                ELSE [st EXCEPT !.delivered = @ + 1, !.stop = TRUE, !.cbs = @ + (IF st.reg THEN 1 ELSE 0),
+                                                !.late = @ + (IF st.reg /\ st.pc = "teardown" THEN 1 ELSE 0)]
     [] a = "Poll"          -> st
     [] a = "BeginReport"   -> [st EXCEPT !.pc = "report"]
+    [] a = "Teardown"      -> [st EXCEPT !.pc = "teardown", !.reg = IF design = "backend_destroyed_first" THEN st.reg ELSE FALSE]
     [] a = "End"           -> [st EXCEPT !.pc = "done", !.exit = 0]
+Apply(s, st, a) == ApplyD("code", s, st, a)
 
 ----------------------------------------------------------------------------
 (* the property *)
 NotLost       (s, st) == st.delivered > 0 /\ st.exit = -1 => st.stop            \* observed by the stop query
 Interruptible (s, st) == st.pc = "solve" => st.reg                              \* a signal during Solve finds the backend's callback
-EveryCallback (s, st) == st.pc \in {"solve", "report"} /\ st.delivered < 3 /\ s.where # "options" => st.cbs = st.delivered
+EveryCallback (s, st) == st.pc \in {"solve", "report"} /\ st.delivered < 3 /\ s.where \in {"solve", "report"} => st.cbs = st.delivered
 Third         (s, st) == st.delivered = 3 <=> st.exit = 1
-Exported      (s, st) == st.pc \in {"solve", "report", "done"} /\ s.mode # "none" => st.exported = s.nfiles
+Exported      (s, st) == st.pc \in {"solve", "report", "teardown", "done"} /\ s.mode # "none" => st.exported = s.nfiles
+AfterTeardown (s, st) == st.late = 0                                           \* no call into a backend that is being destroyed
 =============================================================================
